@@ -20,7 +20,7 @@ func world(entry string, fam, nT, nV, conv, form, sv int64, mode ...int64) Shard
 	}
 	if fam >= 100 {
 		skel := []string{"skeleton 0: multi-input converter entered through one input, typed inputs with symbolic subtypes", "skeleton 1: diamond of two multi-input converters", "skeleton 2: two-output converter feeding two parameters, symbolic names/subtypes",
-			"skeleton 3: provider competing with direct values, symbolic names/subtypes", "skeleton 4: chain of three with a bidirectional pair", "skeleton 5: two named parameters converted from competing named inputs with subtypes", "skeleton 6: deep diamond (5 converters, named+subtyped intermediate, interface target)"}
+			"skeleton 3: provider competing with direct values, symbolic names/subtypes", "skeleton 4: chain of three with a bidirectional pair", "skeleton 5: two named parameters converted from competing named inputs with subtypes", "skeleton 6: deep diamond (5 converters, named+subtyped intermediate, interface target)", "skeleton 7: two supplied converters of identical Go type and a hopeless named parameter"}
 		return sh(entry, fmt.Sprintf("%s, forms=%s, order policy %d%s", skel[fam-100], formNames[form], sv, extra), 0, fam, nT, nV, conv, form, sv, m)
 	}
 	return sh(entry, fmt.Sprintf("%s: %d target params, %d supplied values, converters(in,out digits; 9=provider)=%d, forms=%s, order policy %d%s", famNames[fam], nT, nV, conv, formNames[form], sv, extra), 0, fam, nT, nV, conv, form, sv, m)
@@ -70,7 +70,7 @@ func registerResolver() {
 	register(&PropSpec{
 		ID: "C06", Pkg: "argmapper",
 		Quick: []Shard{
-			world("HarnessC06", 1, 1, 2, 0, 0, 0), world("HarnessC06", 2, 2, 1, 0, 1, 0), world("HarnessC06", 3, 1, 1, 0, 9, 0), world("HarnessC06", 0, 1, 1, 11, 9, 0), world("HarnessC06", 1, 1, 1, 11, 1, 0), world("HarnessC06", 2, 1, 1, 11, 3, 1), world("HarnessC06", 0, 1, 1, 2121, 1, 0), world("HarnessC06", 5, 1, 1, 2111, 0, 0, 2), world("HarnessC06", 6, 1, 1, 12, 1, 0, 4), world("HarnessC06", 100, 0, 0, 0, 1, 0), world("HarnessC06", 101, 0, 0, 0, 9, 0, 2), world("HarnessC06", 102, 0, 0, 0, 1, 0), world("HarnessC06", 103, 0, 0, 0, 1, 0), world("HarnessC06", 104, 0, 0, 0, 0, 0), world("HarnessC06", 106, 0, 0, 0, 1, 0), world("HarnessC06", 1, 1, 1, 91, 1, 0),
+			world("HarnessC06", 1, 1, 2, 0, 0, 0), world("HarnessC06", 2, 2, 1, 0, 1, 0), world("HarnessC06", 3, 1, 1, 0, 9, 0), world("HarnessC06", 0, 1, 1, 11, 9, 0), world("HarnessC06", 1, 1, 1, 11, 1, 0), world("HarnessC06", 2, 1, 1, 11, 3, 1), world("HarnessC06", 5, 1, 1, 2121, 1, 0), world("HarnessC06", 5, 1, 1, 2111, 0, 0, 2), world("HarnessC06", 6, 1, 1, 12, 1, 0, 4), world("HarnessC06", 100, 0, 0, 0, 1, 0), world("HarnessC06", 101, 0, 0, 0, 9, 0, 2), world("HarnessC06", 102, 0, 0, 0, 1, 0), world("HarnessC06", 103, 0, 0, 0, 1, 0), world("HarnessC06", 104, 0, 0, 0, 0, 0), world("HarnessC06", 106, 0, 0, 0, 1, 0), world("HarnessC06", 1, 1, 1, 91, 1, 0),
 			sh("HarnessC06Pos", "positional target func(T,T)", 0, 0), sh("HarnessC06Pos", "positional target func(T,T,U)", 0, 1),
 			sh("HarnessC06Pos", "positional converter func(T,T) U", 0, 2), sh("HarnessC06Pos", "positional func(T,T) (T,T)", 0, 3),
 			sh("HarnessC06Malformed", "nil option", 0, 0), sh("HarnessC06Malformed", "nil values", 0, 1), sh("HarnessC06Malformed", "Converter(42)", 0, 2),
@@ -80,7 +80,7 @@ func registerResolver() {
 			sh("HarnessC06Gen", "F-type: generator producing a converter, 1 supplied value", 0, 0, 1, 0), sh("HarnessC06Gen", "F-name: generator producing a converter, 2 supplied values", 0, 1, 2, 0),
 		},
 		Covers:   []string{"C06.call-returned", "C06.redefine-returned", "C06.convert-returned", "C06.positional-checked", "C06.malformed-checked", "C06.generator-checked"},
-		Bounds:   []string{"template worlds as C01 (Call, then Redefine, then Convert on the same options)", "positional signatures repeating a type (4 shapes)", "12 malformed-option scenarios", "converter generators producing one converter", "call depth 400 / 2e7 SSA instructions per path = divergence"},
+		Bounds:   []string{"template worlds as C01 (Call, then Redefine, then Convert on the same options)", "positional signatures repeating a type (4 shapes)", "12 malformed-option scenarios", "converter generators producing one converter", "call depth 400 / 4e6 SSA instructions per path = divergence"},
 		Outside:  []string{"as C01", "variadic functions", "non-termination that needs more than 400 nested frames to distinguish from deep recursion"},
 		Assume:   common,
 		Anchored: append(resolverFns, "(*github.com/hashicorp/go-argmapper.Func).Redefine", "(*github.com/hashicorp/go-argmapper.Func).redefineInputs", "github.com/hashicorp/go-argmapper.Convert", "(*github.com/hashicorp/go-argmapper.structValue).CallIn"),
@@ -148,7 +148,7 @@ func registerResolver() {
 	register(&PropSpec{
 		ID: "C13", Pkg: "argmapper",
 		Quick: []Shard{
-			world("HarnessC13", 1, 1, 2, 0, 0, 0), world("HarnessC13", 3, 2, 1, 0, 1, 0), world("HarnessC13", 0, 1, 1, 11, 9, 0), world("HarnessC13", 2, 1, 1, 11, 3, 1), world("HarnessC13", 1, 2, 1, 11, 1, 0), world("HarnessC13", 5, 2, 1, 2111, 0, 0),
+			world("HarnessC13", 1, 1, 2, 0, 0, 0), world("HarnessC13", 3, 2, 1, 0, 1, 0), world("HarnessC13", 0, 1, 1, 11, 9, 0), world("HarnessC13", 2, 1, 1, 11, 3, 1), world("HarnessC13", 1, 2, 1, 11, 1, 0), world("HarnessC13", 5, 2, 1, 2111, 0, 0), world("HarnessC13", 107, 0, 0, 0, 9, 0), world("HarnessC13", 103, 0, 0, 0, 1, 0),
 		},
 		Thorough: []Shard{
 			world("HarnessC13", 1, 1, 2, 0, 0, 0), world("HarnessC13", 3, 2, 1, 0, 1, 0), world("HarnessC13", 0, 1, 1, 11, 9, 0), world("HarnessC13", 2, 1, 1, 11, 3, 1), world("HarnessC13", 1, 2, 1, 11, 1, 0), world("HarnessC13", 5, 2, 1, 2111, 0, 0), world("HarnessC13", 3, 2, 2, 11, 1, 0), world("HarnessC13", 0, 2, 1, 1111, 1, 0), world("HarnessC13", 6, 2, 1, 12, 1, 0, 4), world("HarnessC13", 7, 2, 1, 11, 1, 0), world("HarnessC13", 1, 2, 1, 91, 1, 0),
@@ -165,9 +165,13 @@ func registerResolver() {
 	}
 	register(&PropSpec{
 		ID: "C10", Pkg: "argmapper",
-		Quick:    []Shard{w10(0, 1, 0, 0, 0), w10(0, 1, 11, 9, 0), w10(4, 2, 11, 1, 0), w10(0, 1, 1111, 1, 0), w10(3, 2, 11, 0, 1)},
-		Thorough: []Shard{w10(0, 1, 0, 0, 0), w10(0, 1, 11, 9, 0), w10(4, 2, 11, 1, 0), w10(0, 1, 1111, 1, 0), w10(3, 2, 11, 0, 1), w10(0, 2, 1111, 1, 0), w10(0, 1, 2111, 1, 0), w10(4, 1, 1111, 9, 0)},
-		Covers:   []string{"C10.both-returned", "C10.failure-checked", "C10.success-checked", "C10.conversion-used"},
+		Quick: []Shard{w10(0, 1, 0, 0, 0), w10(0, 1, 11, 9, 0), w10(4, 2, 11, 1, 0), w10(5, 1, 1111, 1, 0), w10(3, 2, 11, 0, 1),
+			sh("HarnessC10Nil", "nilable target: *P0 supplied directly, nil-ness symbolic", 0, 0), sh("HarnessC10Nil", "nilable target: *P0 from a converter, nil-ness symbolic", 0, 1),
+			sh("HarnessC10Nil", "nilable target: []P0 supplied directly, nil-ness symbolic", 0, 2), sh("HarnessC10Nil", "nilable target: []P0 from a converter, nil-ness symbolic", 0, 3)},
+		Thorough: []Shard{w10(0, 1, 0, 0, 0), w10(0, 1, 11, 9, 0), w10(4, 2, 11, 1, 0), w10(0, 1, 1111, 1, 0), w10(3, 2, 11, 0, 1), w10(0, 2, 1111, 1, 0), w10(0, 1, 2111, 1, 0), w10(4, 1, 1111, 9, 0),
+			sh("HarnessC10Nil", "nilable target: *P0 supplied directly, nil-ness symbolic", 0, 0), sh("HarnessC10Nil", "nilable target: *P0 from a converter, nil-ness symbolic", 0, 1),
+			sh("HarnessC10Nil", "nilable target: []P0 supplied directly, nil-ness symbolic", 0, 2), sh("HarnessC10Nil", "nilable target: []P0 from a converter, nil-ness symbolic", 0, 3)},
+		Covers:   []string{"C10.both-returned", "C10.failure-checked", "C10.success-checked", "C10.conversion-used", "C10.nilable-checked"},
 		Bounds:   []string{"target type symbolic over the family's pool (concrete and interface), <=2 supplied values, <=2 converters with symbolic labels; Convert and the identity call run in the same path on the same options"},
 		Outside:  []string{"as C01", "targets with names or subtypes (Convert takes a plain type)"},
 		Assume:   common,
@@ -208,10 +212,10 @@ func registerResolver() {
 	})
 	register(&PropSpec{
 		ID: "C16", Pkg: "argmapper",
-		Quick:    []Shard{sh("HarnessC16", "3 symbolic options, no nil option", 0, 3, 0), sh("HarnessC16", "2 symbolic options incl. nil option", 0, 2, 1), sh("HarnessC16Perm", "permutations of 3 exact options", 0, 3, 0), sh("HarnessC16Perm", "permutations of 3 exact options + distractor converter", 0, 3, 1)},
-		Thorough: []Shard{sh("HarnessC16", "4 symbolic options, no nil option", 0, 4, 0), sh("HarnessC16", "3 symbolic options incl. nil option", 0, 3, 1), sh("HarnessC16Perm", "permutations of 4 exact options", 0, 4, 0), sh("HarnessC16Perm", "permutations of 4 exact options + distractor converter", 0, 4, 1)},
-		Covers:   []string{"C16.call-returned", "C16.values-checked", "C16.default-applies", "C16.call-overrides-or-supplies", "C16.nil-option-checked", "C16.permutation-checked"},
-		Bounds:   []string{"option lists of <=3 (quick) / 4 (thorough) options, each symbolically Named(spelling from {ab,AB,aB,Ab,cd,CD}, value) / Typed(value) / nil value / nil option; the split into construction defaults and call options symbolic; field-name spelling symbolic", "all permutations of 3/4 exactly matching options, with and without a distractor converter"},
+		Quick:    []Shard{sh("HarnessC16", "3 symbolic options (Named/NamedSubtype/TypedSubtype/nil value, symbolic spellings) split symbolically into defaults, first call, second call", 0, 3, 0), sh("HarnessC16", "3 symbolic options incl. nil option", 0, 3, 1), sh("HarnessC16Perm", "permutations of 3 exact options", 0, 3, 0), sh("HarnessC16Perm", "permutations of 3 exact options + distractor converter", 0, 3, 1)},
+		Thorough: []Shard{sh("HarnessC16", "4 symbolic options split symbolically into defaults, first call, second call", 0, 4, 0), sh("HarnessC16", "4 symbolic options incl. nil option", 0, 4, 1), sh("HarnessC16Perm", "permutations of 4 exact options", 0, 4, 0), sh("HarnessC16Perm", "permutations of 4 exact options + distractor converter", 0, 4, 1)},
+		Covers:   []string{"C16.call-returned", "C16.values-checked", "C16.default-applies", "C16.call-overrides-or-supplies", "C16.nil-option-checked", "C16.permutation-checked", "C16.second-call-checked"},
+		Bounds:   []string{"option lists of <=3 (quick) / 4 (thorough) options, each symbolically Named / NamedSubtype (spellings symbolic) / Typed / TypedSubtype / nil value / nil option, split symbolically into construction defaults, the options of a first call and the options of a second call on the same Func; field-name spelling symbolic", "all permutations of 3/4 exactly matching options, with and without a distractor converter"},
 		Outside:  []string{"longer option lists", "non-ASCII names"},
 		Assume:   common,
 		Anchored: []string{"github.com/hashicorp/go-argmapper.Named", "github.com/hashicorp/go-argmapper.Typed", "github.com/hashicorp/go-argmapper.newArgBuilder", "(*github.com/hashicorp/go-argmapper.Func).argBuilder"},
@@ -223,8 +227,10 @@ func registerResolver() {
 	register(&PropSpec{
 		ID: "C17", Pkg: "argmapper",
 		Quick: []Shard{c17(0, 0, 0), c17(0, 1, 0), c17(1, 1, 0), c17(2, 1, 0), c17(2, 0, 0), c17(2, 2, 0), c17(3, 1, 0), c17(2, 1, 1), c17(1, 0, 1), c17(0, 2, 0),
-			sh("HarnessC17Fail", "resolution failure: missing argument", 0, 0), sh("HarnessC17Fail", "resolution failure: nil option", 0, 1), sh("HarnessC17Fail", "resolution failure: converter input missing", 0, 2), sh("HarnessC17Fail", "failing converter", 0, 3)},
-		Covers:   []string{"C17.accessors-checked", "C17.final-error-checked", "C17.non-final-error-checked", "C17.concrete-error-type-is-an-output", "C17.resolution-failure-checked"},
+			sh("HarnessC17Fail", "resolution failure: missing argument", 0, 0), sh("HarnessC17Fail", "resolution failure: nil option", 0, 1), sh("HarnessC17Fail", "resolution failure: converter input missing", 0, 2), sh("HarnessC17Fail", "failing converter", 0, 3),
+			sh("HarnessC17Once", "run-once function (struct form) used as a converter, then called directly twice", 0, 1), sh("HarnessC17Once", "run-once function (*struct form) used as a converter, then called directly twice", 0, 2),
+			sh("HarnessC17Once", "run-once function (positional form) used as a converter, then called directly twice", 0, 0), sh("HarnessC17Once", "run-once function (built form) used as a converter, then called directly twice", 0, 3)},
+		Covers:   []string{"C17.accessors-checked", "C17.final-error-checked", "C17.non-final-error-checked", "C17.concrete-error-type-is-an-output", "C17.resolution-failure-checked", "C17.once-checked"},
 		Bounds:   []string{"all result arities 0..3 with result kinds drawn symbolically from {P0,P1,error,P2} (distinct), final slot none / error / concrete error type, nil-ness of every error slot symbolic; positional and marker-struct results", "four resolution-failure scenarios"},
 		Outside:  []string{"more than 3 results before the final slot", "result lists repeating a type"},
 		Assume:   common,
@@ -252,7 +258,7 @@ func registerResolver() {
 		Quick:    []Shard{w8("HarnessC09", 0, 1, 1, 11, 1, 2, 1), w8("HarnessC09", 0, 1, 1, 11, 9, 1, 1), w8("HarnessC09", 0, 1, 1, 1111, 1, 1, 1), w8("HarnessC09", 0, 1, 1, 11, 1, 1, 0)},
 		Thorough: []Shard{w8("HarnessC09", 0, 1, 1, 11, 1, 3, 1), w8("HarnessC09", 0, 1, 1, 11, 9, 2, 1), w8("HarnessC09", 0, 1, 1, 1111, 1, 2, 1), w8("HarnessC09", 1, 1, 1, 11, 1, 2, 1), w8("HarnessC09", 4, 1, 1, 11, 1, 2, 0), w8("HarnessC09", 0, 1, 1, 1121, 1, 1, 1), w8("HarnessC09", 3, 1, 1, 11, 1, 1, 1)},
 		Covers:   []string{"C09.redefines-done", "C09.results-compared", "C09.run-once-checked"},
-		Bounds:   []string{"template worlds with 1-2 converters (one of them optionally run-once); 1-3 Redefine calls, each one of six symbolically chosen variants (plain, type filter, admit-nothing filter, reject-all output filter, fewer supplied values, interface/OR filter), then Call; compared with a twin world that only Calls", "write tracking: every store to a cell reachable from the supplied Func objects and option slice during Redefine"},
+		Bounds:   []string{"template worlds with 1-2 converters (one of them optionally run-once); 1-3 Redefine calls, each one of seven symbolically chosen variants (plain, type filter, admit-nothing filter, reject-all output filter, fewer supplied values, interface/OR filter, first converter offered through a ConverterGen), then Call; compared with a twin world that only Calls", "write tracking: every store to a cell reachable from the supplied Func objects and option slice during Redefine"},
 		Outside:  []string{"more than 3 Redefine calls before the Call", "more than 2 converters"},
 		Assume:   common,
 		Anchored: []string{"(*github.com/hashicorp/go-argmapper.Func).Redefine", "(*github.com/hashicorp/go-argmapper.Func).redefineInputs", "(*github.com/hashicorp/go-argmapper.Func).zeroFunc"},
